@@ -599,7 +599,16 @@ class Network:
 
         pending = {direct_task, indirect_task}
         while pending:
-            done, pending = await asyncio.wait(pending, return_when=asyncio.FIRST_COMPLETED)
+            try:
+                done, pending = await asyncio.wait(pending, return_when=asyncio.FIRST_COMPLETED)
+
+            except asyncio.CancelledError:
+                # The request itself got cancelled: stop the attempts that
+                # are still running
+                for pending_task in pending:
+                    pending_task.cancel()
+                await asyncio.gather(*pending, return_exceptions=True)
+                raise
 
             connections = []
             for done_task in done:
@@ -835,14 +844,22 @@ class Network:
         )
         self.peer_connections.append(connection)
 
-        await connection.connect()
-        await connection.send_message(
-            PeerInit.Request(
-                self._settings.credentials.username,
-                typ,
-                ticket
+        try:
+            await connection.connect()
+            await connection.send_message(
+                PeerInit.Request(
+                    self._settings.credentials.username,
+                    typ,
+                    ticket
+                )
             )
-        )
+
+        except asyncio.CancelledError:
+            # Cancelled before the connection got initialized (for example
+            # because the indirect connection won the race): nobody will own
+            # this connection
+            await connection.disconnect(CloseReason.REQUESTED)
+            raise
 
         self._finalize_peer_connection(connection)
 
@@ -879,19 +896,24 @@ class Network:
             }
         )
 
-        # Send the connect to peer message
-        await self.server_connection.send_message(
-            ConnectToPeer.Request(ticket, username, typ))
-
         futures = (expected_connection_future, cannot_connect_future)
-        done, pending = await asyncio.wait(
-            futures,
-            timeout=PEER_INDIRECT_CONNECT_TIMEOUT,
-            return_when=asyncio.FIRST_COMPLETED
-        )
+        try:
+            # Send the connect to peer message
+            await self.server_connection.send_message(
+                ConnectToPeer.Request(ticket, username, typ))
 
-        # Whatever happens here, we can cancel all pending futures
-        [fut.cancel() for fut in pending]
+            done, _ = await asyncio.wait(
+                futures,
+                timeout=PEER_INDIRECT_CONNECT_TIMEOUT,
+                return_when=asyncio.FIRST_COMPLETED
+            )
+
+        finally:
+            # Whatever happens here (also when sending failed or this task got
+            # cancelled), we can cancel all pending futures
+            for fut in futures:
+                if not fut.done():
+                    fut.cancel()
 
         # `done` will be empty in case of timeout
         if not done:
